@@ -12,7 +12,7 @@ import (
 
 // C10 — absolute and idle session timeouts are enforced by whichever store backs the session.
 
-var c10Timeouts = []int{0, 1, 2, 3, 5, 60}
+var c10Timeouts = []int{0, 1, 2, 3, 5, 60, 900, 28800}
 
 type c10Model struct {
 	hasTok    bool
@@ -170,6 +170,20 @@ func c10Prop(c *sim.Case) {
 		}
 		m.lo, m.hi = now, now
 	}
+	// other people's sessions, created shortly before the judged one: they run into the same limits at about the same
+	// time, so whatever the store does per expired session it does for a batch of them
+	nby := sim.Tail(c, "bystanders", 1, 28)
+	for i := 0; i < nby; i++ {
+		bid := fmt.Sprintf("bystander-%02d", i)
+		_ = st.SetAuthorizationState(ctx, bid, &oidc.AuthorizationState{State: "s", Nonce: "n", RequestedURL: "u", CodeVerifier: "v"})
+		if i%2 == 0 {
+			_ = st.SetTokenResponse(ctx, bid, c10Tok(100+i))
+		}
+		clk.Advance(7 * time.Millisecond)
+	}
+	if nby > 0 {
+		c.Class(fmt.Sprintf("bystanders:%d+", nby/8*8))
+	}
 	// like a login: the session starts with its login state; the tokens arrive now or some time later
 	write("SetAuthorizationState", 0)
 	if sim.Bool(c, "tokens-at-start") {
@@ -177,7 +191,21 @@ func c10Prop(c *sim.Case) {
 	}
 	n := 2 + sim.Pick(c, "nops", 14)
 	for i := 0; i < n; i++ {
-		switch sim.Weighted(c, "op", 5, 3, 2) {
+		switch sim.Weighted(c, "op", 10, 6, 4, 1, 1) {
+		case 3:
+			// the sweep the service may run at any time: it removes what has expired and nothing else
+			if err := st.RemoveAllExpired(ctx); err != nil {
+				c.Violation(sig("sweep-error"), "RemoveAllExpired: %v", err)
+			}
+			c.Logf("sweep")
+		case 4:
+			// someone else's session is written or read in between
+			bid := fmt.Sprintf("bystander-%02d", sim.Pick(c, "by.id", 28))
+			if sim.Bool(c, "by.write") {
+				_ = st.SetTokenResponse(ctx, bid, c10Tok(200+i))
+			} else {
+				_, _ = st.GetTokenResponse(ctx, bid)
+			}
 		case 0:
 			var d time.Duration
 			next := time.Duration(0)
@@ -229,7 +257,7 @@ func c10Prop(c *sim.Case) {
 func TestC10(t *testing.T) {
 	r := sim.NewRun(t, "C10")
 	defer r.Finish()
-	r.Rule = "store tier: (absolute, idle) in {0,1,2,3,5,60}^2 x {memory, Redis on miniredis} on a virtual clock, no manual sweeps; histories of writes (tokens, login state), reads (either kind; each read is also a use) and clock advances drawn 1.5 s / 0.5 s before and after the next limit, at random sub-second and multi-second offsets. Oracle: interval model of creation time and last use with 1 s tolerance (must not be honoured beyond a limit; must be honoured more than 1 s inside both; otherwise either). System tier: the assembled service (server.ExtAuthZFilter.Check with the real session-store factory wiring and real clock). Non-trivial = the history observed the session both alive and expired and (if an absolute limit is set) used it between creation and that limit; distinct = distinct (store, timeouts, trace)."
+	r.Rule = "store tier: (absolute, idle) in {0,1,2,3,5,60,900,28800}^2 x {memory, Redis on miniredis} on a virtual clock, 0-27 other sessions created just before the judged one, sweeps (RemoveAllExpired) and operations on other sessions at drawn points; histories of writes (tokens, login state), reads (either kind; each read is also a use) and clock advances drawn 1.5 s / 0.5 s before and after the next limit, at random sub-second and multi-second offsets. Oracle: interval model of creation time and last use with 1 s tolerance (must not be honoured beyond a limit; must be honoured more than 1 s inside both; otherwise either). System tier: the assembled service (server.ExtAuthZFilter.Check with the real session-store factory wiring and real clock). Non-trivial = the history observed the session both alive and expired and (if an absolute limit is set) used it between creation and that limit; distinct = distinct (store, timeouts, trace)."
 	r.Assumptions = []string{"one second of timestamp granularity is tolerated on either side of a limit", "miniredis follows the virtual clock through SetTime + FastForward"}
 	parts := map[string]func(*sim.Case){"store": c10Prop, "system": c10System}
 	if r.Replay != "" {
